@@ -268,6 +268,8 @@ class FuncCtx:
             base = self.canon(ch[0], depth, subst)
             if base.endswith("-><anon>") or base.endswith(".<anon>"):
                 return base[:-6] + n["name"]
+            if n.get("isArrow") and b0["kind"] == "MemberExpr" and b0.get("name") in self.model.array_fields():
+                return "%s[0].%s" % (base, n["name"])       # q->F->g  ==  q->F[0].g  for a member used as an array
             if base.startswith("&") and n.get("isArrow") and not base.startswith("&("):
                 return base[1:] + "." + n["name"]       # (&x)->f  ==  x.f
             return base + ("->" if n.get("isArrow") else ".") + n["name"]
@@ -287,6 +289,8 @@ class FuncCtx:
             if op == "*" and inner.startswith("&"):
                 return inner[1:]
             c0 = self.resolve(ch[0])
+            if op == "*" and c0["kind"] == "MemberExpr" and c0.get("name") in self.model.array_fields():
+                return "%s[0]" % inner
             if op == "*" and c0["kind"] == "BinaryOperator" and c0.get("opcode") == "+" and \
                     "*" in (strip(kids(c0)[0], casts=True).get("type") or "") and "*" not in (strip(kids(c0)[1], casts=True).get("type") or "*"):
                 return "%s[%s]" % (self.canon(kids(c0)[0], depth, subst), self.canon(kids(c0)[1], depth, subst))
